@@ -413,10 +413,96 @@ static void run_params(uint64_t seed, long n)
    free(st); free(ctl);
 }
 
+/* ------------------------------------------------------------------ output stage of silk_Decode */
+#include "API.h"
+#include "entdec.h"
+opus_int verif_Get_Decoder_Size(opus_int *decSizeBytes);
+opus_int verif_InitDecoder(void *decState);
+opus_int verif_Decode(void *decState, silk_DecControlStruct *decControl, opus_int lostFlag, opus_int newPacketFlag, ec_dec *psRangeDec,
+                      opus_res *samplesOut, opus_int32 *nSamplesOut, int arch);
+silk_decoder_state *verif_dec_channel(void *d, int n);
+stereo_dec_state *verif_dec_stereo(void *d);
+int verif_dec_nch_internal(void *d);
+int verif_dec_prev_dom(void *d);
+
+static vrng *ostub_r; static int ostub_dom_script = 0, ostub_dom_used = 0;
+opus_int vstub_decode_frame(silk_decoder_state *psDec, ec_dec *rd, opus_int16 pOut[], opus_int32 *pN, opus_int lostFlag, opus_int condCoding, int arch)
+{
+   int i; (void)rd; (void)lostFlag; (void)condCoding; (void)arch;
+   for (i = 0; i < psDec->frame_length; i++) pOut[i] = (opus_int16)vrange(ostub_r, -20000, 20000);
+   vrec_note(pOut, (long)psDec->frame_length * 2, 1);
+   *pN = psDec->frame_length;
+   return 0;
+}
+void vstub_stereo_decode_pred(ec_dec *rd, opus_int32 pred_Q13[]) { (void)rd; pred_Q13[0] = vrange(ostub_r, -8000, 8000); pred_Q13[1] = vrange(ostub_r, -8000, 8000); }
+void vstub_stereo_decode_mid_only(ec_dec *rd, opus_int *dom) { (void)rd; *dom = ostub_dom_script; ostub_dom_used = ostub_dom_script; }
+
+static const char *const out_names[] = {"samplesOut1_tmp_storage1", "samplesOut2_tmp", "samplesOut", "sMid", "sSide", "pred_prev_Q13",
+                                        "delayBuf0", "delayBuf1"};
+static void run_out(uint64_t seed, long ninst)
+{
+   static const int apis[5] = {8000, 12000, 16000, 24000, 48000};
+   static const int ints[3] = {8000, 12000, 16000};
+   vrng r; long h; opus_int sz = 0; void *dec; unsigned char payload[64];
+   r.s = seed * 0xA0761D6478BD642FULL + 31337; ostub_r = &r; fscr.r = &r;
+   verif_Get_Decoder_Size(&sz);
+   dec = calloc(1, sz);
+   for (h = 0; h < ninst; h++) {
+      int apiHz = apis[h % 5], nChAPI = 1 + (int)((h / 5) % 2), calls = vrange(&r, 4, 12), step, left = 0, nChInt = 1, intHz = 16000, pms = 20;
+      silk_DecControlStruct ctl;
+      verif_InitDecoder(dec);
+      memset(&ctl, 0, sizeof(ctl));
+      for (step = 0; step < calls; step++) {
+         int lost, newPacket = left == 0, i, F, fs, stm, hasSide, prevDom; opus_int32 nOut = 0; ec_dec rd; opus_res *so; long N;
+         if (newPacket) {
+            nChInt = nChAPI == 1 ? (vchance(&r, 85) ? 1 : 2) : (vchance(&r, 65) ? 2 : 1);
+            if (vchance(&r, 30) || step == 0) intHz = ints[vbelow(&r, 3)];
+            pms = vchance(&r, 70) ? (vchance(&r, 50) ? 20 : 10) : (vchance(&r, 50) ? 40 : 60);
+            left = pms <= 20 ? 1 : pms / 20;
+         }
+         lost = vchance(&r, 25);
+         ostub_dom_script = vchance(&r, 30); ostub_dom_used = 0;
+         for (i = 0; i < (int)sizeof(payload); i++) payload[i] = (unsigned char)vnext(&r);
+         ec_dec_init(&rd, payload, sizeof(payload));
+         ctl.nChannelsAPI = nChAPI; ctl.nChannelsInternal = nChInt; ctl.API_sampleRate = apiHz; ctl.internalSampleRate = intHz;
+         ctl.payloadSize_ms = lost && newPacket ? (pms > 20 ? 20 : pms) : pms;
+         stm = nChInt == 1 && verif_dec_nch_internal(dec) == 2 && intHz == 1000 * verif_dec_channel(dec, 0)->fs_kHz;
+         prevDom = verif_dec_prev_dom(dec);
+         /* the caller's buffer: frame of at most 20 ms at the API rate, per channel */
+         N = (long)20 * apiHz / 1000;
+         vreg_reset();
+         so = (opus_res *)vrec_alloc("samplesOut", nChAPI * N, sizeof(opus_res));
+         vreg_add("sMid", verif_dec_stereo(dec)->sMid, 2, sizeof(opus_int16), 0);
+         vreg_add("sSide", verif_dec_stereo(dec)->sSide, 2, sizeof(opus_int16), 0);
+         vreg_add("pred_prev_Q13", verif_dec_stereo(dec)->pred_prev_Q13, 2, sizeof(opus_int16), 0);
+         vreg_add("delayBuf0", verif_dec_channel(dec, 0)->resampler_state.delayBuf, 48, sizeof(opus_int16), 0);
+         vreg_add("delayBuf1", verif_dec_channel(dec, 1)->resampler_state.delayBuf, 48, sizeof(opus_int16), 0);
+         vjmp_armed = 1;
+         if (sigsetjmp(vjmp, 1) == 0) {
+            cur_phase = 0; recording = 1;
+            verif_Decode(dec, &ctl, lost ? FLAG_PACKET_LOST : FLAG_DECODE_NORMAL, newPacket, &rd, so, &nOut, 0);
+            recording = 0; vjmp_armed = 0;
+            fs = verif_dec_channel(dec, 0)->fs_kHz; F = verif_dec_channel(dec, 0)->frame_length;
+            hasSide = lost ? !prevDom : !ostub_dom_used;
+            printf("I silkparams synthout %d %d %d %d %d %d %d %d\n", fs, F / (5 * fs), nChInt, nChAPI, apiHz, hasSide, stm, lost);
+            printf("O OK n=%d ", (int)nOut); print_extents(out_names, NEL(out_names)); printf("\n");
+         } else {
+            recording = 0; vjmp_armed = 0;
+            printf("I silkparams synthout %d %d %d %d %d %d %d %d\nO ABORT\n", intHz / 1000, 0, nChInt, nChAPI, apiHz, 0, stm, lost);
+            vreg_reset(); break;
+         }
+         vreg_reset();
+         left--;
+      }
+   }
+   free(dec);
+}
+
 int main(int argc, char **argv)
 {
    signal(SIGABRT, vabort_jump);
    if (argc >= 4 && !strcmp(argv[1], "core")) run_core(strtoull(argv[2], 0, 10), atol(argv[3]));
+   else if (argc >= 4 && !strcmp(argv[1], "out")) run_out(strtoull(argv[2], 0, 10), atol(argv[3]));
    else if (argc >= 4 && !strcmp(argv[1], "params")) run_params(strtoull(argv[2], 0, 10), atol(argv[3]));
    else if (argc >= 4 && !strcmp(argv[1], "frames")) run_frames(strtoull(argv[2], 0, 10), atol(argv[3]));
    else { fprintf(stderr, "usage: c18_synthidx core <seed> <nrand> | frames <seed> <nhist>\n"); return 64; }
